@@ -679,9 +679,12 @@ func (t *gTemplate) source() string {
 	}
 	b.WriteString("}\n")
 	if t.header {
-		for _, p := range t.params {
+		for pi, p := range t.params {
 			if p.optional {
 				b.WriteString("{@param? " + p.name + ": ?}\n")
+			} else if (len(t.body)+pi)%4 == 1 {
+				// a default value does not make a header param optional: callers must still pass it
+				b.WriteString("{@param " + p.name + []string{": ? = 10}\n", ": string = 'd'}\n", ":= null}\n"}[(len(t.body)/4+pi)%3])
 			} else {
 				b.WriteString("{@param " + p.name + ": ?}\n")
 			}
